@@ -5,8 +5,9 @@ from . import run, life, models, scen
 
 # root of this verification tree (normally /verif; a snapshot under /root/.vp/runs/<n>/verif for `vp run`)
 VERIF = os.path.dirname(os.path.dirname(os.path.dirname(os.path.realpath(__file__))))
-EVID = VERIF + "/evidence"
-REPLAYS = VERIF + "/work/replays"
+# runs against another checkout (VERIF_REPO, seeded-change evaluation) keep their files apart
+EVID = VERIF + "/evidence" if not run.TAG else VERIF + "/work/evidence" + run.TAG
+REPLAYS = VERIF + "/work/replays" + run.TAG
 
 ASSUME = [
     "E1 datastore semantics per lightning-datastore(7) (modes, generations)",
@@ -37,7 +38,7 @@ def write_evidence(pid, tier, seed, level, coverage, wall, violations, assumptio
 def setup():
     t = time.time()
     os.makedirs(VERIF + "/work", exist_ok=True)
-    shutil.copy("/repo/Cargo.lock", VERIF + "/harness/Cargo.lock")
+    shutil.copy(run.REPO + "/Cargo.lock", VERIF + "/harness/Cargo.lock")
     run.cargo_build()
     models.write_all()
     env = dict(os.environ, JAVA_TOOL_OPTIONS="-DTLA-Library=" + VERIF + "/spec")
@@ -134,7 +135,7 @@ def conformance(files, wd, cap_lines=0):
 def check_life(pid, tier, seed):
     t0 = time.time()
     known = load_known()
-    wd = f"{VERIF}/work/{pid}_{tier}"
+    wd = f"{VERIF}/work/{pid}_{tier}{run.TAG}"
     shutil.rmtree(wd, ignore_errors=True)
     os.makedirs(wd)
     run.cargo_build()
@@ -257,7 +258,7 @@ def check_c12(tier, seed):
     t0 = time.time()
     pid = "C12"
     known = load_known()
-    wd = f"{VERIF}/work/C12_{tier}"
+    wd = f"{VERIF}/work/C12_{tier}{run.TAG}"
     shutil.rmtree(wd, ignore_errors=True); os.makedirs(wd)
     run.cargo_build(); run.cargo_build("wrap")
     thorough = tier == "thorough"
@@ -269,7 +270,7 @@ def check_c12(tier, seed):
     outs = []
     for prof in ("debug", "wrap"):
         o = f"{wd}/o_{prof}.ndjson"
-        p = subprocess.run([f"{VERIF}/target/harness/{prof}/vfh", "fee", wd + "/v.ndjson", o], capture_output=True, text=True)
+        p = subprocess.run([f"{run.TDIR}/{prof}/vfh", "fee", wd + "/v.ndjson", o], capture_output=True, text=True)
         if p.returncode != 0:
             raise run.ToolError("vfh fee failed: " + p.stderr[-1000:])
         outs.append(o)
@@ -325,7 +326,7 @@ def check_c18(tier, seed):
     from . import tlvgen
     t0 = time.time()
     pid = "C18"
-    wd = f"{VERIF}/work/C18_{tier}"
+    wd = f"{VERIF}/work/C18_{tier}{run.TAG}"
     shutil.rmtree(wd, ignore_errors=True); os.makedirs(wd)
     run.cargo_build(); run.cargo_build("wrap")
     thorough = tier == "thorough"
@@ -343,7 +344,7 @@ def check_c18(tier, seed):
             with open(i, "w") as f:
                 for v in ch:
                     f.write(json.dumps(v) + "\n")
-            p = subprocess.run([f"{VERIF}/target/harness/{prof}/vfh", "tlv", i, o], capture_output=True, text=True)
+            p = subprocess.run([f"{run.TDIR}/{prof}/vfh", "tlv", i, o], capture_output=True, text=True)
             if p.returncode != 0:
                 raise run.ToolError("vfh tlv failed: " + p.stderr[-1000:])
             outs.append(o)
@@ -382,7 +383,7 @@ def check_c20(tier, seed):
     import random
     t0 = time.time()
     pid = "C20"
-    wd = f"{VERIF}/work/C20_{tier}"
+    wd = f"{VERIF}/work/C20_{tier}{run.TAG}"
     shutil.rmtree(wd, ignore_errors=True); os.makedirs(wd)
     run.cargo_build()
     thorough = tier == "thorough"
@@ -499,7 +500,7 @@ def check_c17(tier, seed):
     from . import wiregen
     t0 = time.time()
     pid = "C17"
-    wd = f"{VERIF}/work/C17_{tier}"
+    wd = f"{VERIF}/work/C17_{tier}{run.TAG}"
     shutil.rmtree(wd, ignore_errors=True); os.makedirs(wd)
     run.cargo_build()
     thorough = tier == "thorough"
@@ -563,7 +564,7 @@ def check_c19(tier, seed):
     from . import e2e
     t0 = time.time()
     pid = "C19"
-    wd = f"{VERIF}/work/C19_{tier}"
+    wd = f"{VERIF}/work/C19_{tier}{run.TAG}"
     shutil.rmtree(wd, ignore_errors=True); os.makedirs(wd)
     run.cargo_build()
     st = e2e.config_check(seed, tier, wd)
@@ -590,7 +591,7 @@ def selftest():
     specification that model the pinned, defective code are rejected by TLC; (2) the binding is real - corrupting one
     field of a recorded trace or dropping one line makes the conformance specification report DRIFT at that line, and
     corrupting a node-side result makes the Observer report TOOL."""
-    wd = f"{VERIF}/work/selftest"
+    wd = f"{VERIF}/work/selftest{run.TAG}"
     shutil.rmtree(wd, ignore_errors=True); os.makedirs(wd)
     run.cargo_build()
     ok = True
